@@ -83,6 +83,10 @@ def spec_from_header(h):
 
 def block_from_spec(b, mutable_txs=False):
     C, S = _m()
+    from ref import wire as RW
+    if b['txs'] and RW.block_merkle(b).hex() != b['merkle']:
+        # the constructor refuses a declared root that does not match: such a block only comes off the wire
+        return C.CBlock.deserialize(RW.enc_block(b))
     return C.CBlock(b['version'], bytes.fromhex(b['prev']), bytes.fromhex(b['merkle']), b['time'], b['bits'], b['nonce'],
                     [tx_from_spec(t, mutable_txs) for t in b['txs']])
 
